@@ -39,3 +39,27 @@ Definition check_bcase (c : bcase) : nat * option nat * option nat :=
                     (dg_eq (digest (wire_of (bc_peer c))) (bc_read c)) in
   (bc_id c, if agree then None else Some 0%nat, if holds then None else Some 0%nat).
 Definition check_bcases (l : list bcase) := filter bad3 (map check_bcase l).
+
+(* ---- connection faults (Model/BufioFault.v): per-operation results and the far end after each operation ---- *)
+From GN Require Import Model.BufioFault.
+Record fcase := { fc_id : nat; fc_wsize : Z; fc_k : nat; fc_a : Z; fc_ops : list wospec;
+                  fc_res : list (Z * bool * (Z * Z)) }.   (* bytes reported accepted, success, digest of the far end *)
+Fixpoint fres_eq (m : list (Z * bool * bytes)) (o : list (Z * bool * (Z * Z))) : bool :=
+  match m, o with
+  | [], [] => true
+  | (n, ok, far) :: m', (n', ok', d) :: o' => andb (andb (n =? n') (Bool.eqb ok ok')) (andb (dg_eq (digest far) d) (fres_eq m' o'))
+  | _, _ => false
+  end.
+(* the property read off the observation alone: whenever Flush reports success, the far end holds exactly the
+   bytes the calls before it reported as accepted, in call order *)
+Fixpoint fobs_holds (acc : bytes) (ops : list wop) (o : list (Z * bool * (Z * Z))) : bool :=
+  match ops, o with
+  | WFlush :: r, (_, ok, d) :: o' => andb (if ok then dg_eq (digest acc) d else true) (fobs_holds acc r o')
+  | op :: r, (n, _, _) :: o' => fobs_holds (acc ++ btake n (wpayload op)) r o'
+  | _, _ => true
+  end.
+Definition check_fcase (c : fcase) : nat * option nat * option nat :=
+  let ops := map wop_of (fc_ops c) in
+  let '(res, _) := frun (fc_wsize c) (finit (Some (fc_k c, fc_a c))) ops in
+  (fc_id c, if fres_eq res (fc_res c) then None else Some 0%nat, if fobs_holds [] ops (fc_res c) then None else Some 0%nat).
+Definition check_fcases (l : list fcase) := filter bad3 (map check_fcase l).
